@@ -423,17 +423,28 @@ def main(chk):
                            node=g2, file=CT, func='run_queued_commands', detail_bad='release is skipped under %s' % U(g2.test),
                            detail_ok='only non-root ranks (which have no lock) skip it')
     # get_result
-    withs = [w for w in ast.walk(gr) if isinstance(w, ast.With)]
-    outer = withs[0] if withs else None
-    ok = outer is not None and lm.lock_of(outer.items[0].context_expr, {'lock': 'item-lock'}) == 'item-lock'
-    lockdef = [a for a in ast.walk(gr) if isinstance(a, ast.Assign) and U(a.targets[0]) == 'lock']
-    ok = ok and bool(lockdef) and U(lockdef[0].value) == 'self.queue_lock_map[lock_id]'
-    rd = [a for a in ast.walk(gr) if isinstance(a, ast.Assign) and U(a.value) == 'self.results[lock_id]']
-    inside = bool(rd) and outer is not None and any(rd[0] is x for x in ast.walk(outer))
-    chk.decide(ok and inside, 'command-lock-handoff', 'get_result:waits-on-command-lock', node=gr, file=CT, func='get_result',
+    # (on every path; what a `with` acquires and what is read are taken with the path-local names substituted, so the lock may or may not be kept in a local)
+    from verif_static import paths as PT
+    pid_ = gr.args.args[1].arg if len(gr.args.args) > 1 else 'lock_id'
+    want_lock, want_res = 'self.queue_lock_map[%s]' % pid_, 'self.results[%s]' % pid_
+    gpaths = PT.enumerate_paths(M.docstring_stripped(gr.body))
+    ok, consumed = bool(gpaths), bool(gpaths)
+    for p_ in gpaths:
+        if p_[-1].kind == 'raise':
+            continue
+        held = [e.node for e in p_ if e.kind == 'stmt' and isinstance(e.node, ast.With)
+                and any(PT.resolve(it_.context_expr, e.env) is not None and U(PT.resolve(it_.context_expr, e.env)).replace(' ', '') == want_lock for it_ in e.node.items)]
+        reads = [x for e in p_ if e.kind in ('stmt', 'return') and not isinstance(e.node, (ast.With, ast.Delete)) for x in ast.walk(e.node)
+                 if isinstance(x, ast.Subscript) and isinstance(x.ctx, ast.Load) and U(PT.resolve(x, e.env)).replace(' ', '') == want_res]
+        if not reads or not held or not all(any(r_ is y for y in ast.walk(held[0])) for r_ in reads):
+            ok = False
+        dels = [U(PT.resolve(ast.Subscript(value=d.value, slice=d.slice, ctx=ast.Load()), e.env)).replace(' ', '') for e in p_ if e.kind == 'stmt' and isinstance(e.node, ast.Delete)
+                for d in e.node.targets if isinstance(d, ast.Subscript)]
+        if want_res not in dels or want_lock not in dels:
+            consumed = False
+    chk.decide(ok, 'command-lock-handoff', 'get_result:waits-on-command-lock', node=gr, file=CT, func='get_result',
                detail_bad='the result is read without first acquiring the lock of that command', detail_ok='with queue_lock_map[id]: read result')
-    dels = [U(d.targets[0]) for d in ast.walk(gr) if isinstance(d, ast.Delete)]
-    chk.decide('self.results[lock_id]' in dels and 'self.queue_lock_map[lock_id]' in dels, 'command-lock-handoff', 'get_result:consumes',
+    chk.decide(consumed, 'command-lock-handoff', 'get_result:consumes',
                node=gr, file=CT, func='get_result', detail_bad='result / lock are not removed after delivery (delivered twice or leaked)',
                detail_ok='result and lock entry deleted')
     # solver side: wait_for_cmd re-runs queued commands after each wake-up and execute_commands runs them under qlock
